@@ -210,6 +210,9 @@ pub fn labels(cfg: &RunCfg, r: &SingleResult) -> Vec<String> {
     if !cfg.unwind.is_empty() {
         l.push("run:fnrefs_dropped_by_contained_panics".into());
     }
+    if cfg.rev && cfg.rev_again > 0 {
+        l.push("run:rev_called_more_than_once".into());
+    }
     if cfg.on_clone {
         l.push("run:on_a_clone_of_the_built_graph".into());
     }
